@@ -80,8 +80,9 @@ def c16_observe(fp, target, openpath, readpath):
             "kvm": kvm, "rows": rows_of(df), "columns": sorted(df.columns)}
 
 
-def c16_check(obs, model, base, others_before, others_after):
-    """base: observation right after the initial write.  -> None | text"""
+def c16_check(obs, model, base, others_before, others_after, pandas_expected="base"):
+    """base: observation right after the initial write; pandas_expected: what the library's own 'pandas' entry must be now
+    ("base" = as written; it changes only when an update names that key).  -> None | text"""
     b = obs["bytes"]
     if len(b) != obs["start"] + obs["flen"] + 8:
         return f"file length {len(b)} != footer start {obs['start']} + footer length {obs['flen']} + 8"
@@ -97,9 +98,10 @@ def c16_check(obs, model, base, others_before, others_after):
     if len(set(keys)) != len(keys):
         return f"duplicate keys in the footer: {keys}"
     raw = dict(kv)
-    pandas_before = dict(base["kv"]).get(b"pandas")
+    pandas_before = dict(base["kv"]).get(b"pandas") if isinstance(pandas_expected, str) else pandas_expected
     if raw.get(b"pandas") != pandas_before:
-        return "the library's own 'pandas' entry changed"
+        return "the library's own 'pandas' entry changed" if isinstance(pandas_expected, str) else \
+            f"the 'pandas' entry is not what the update named for it (present: {b'pandas' in raw})"
     raw.pop(b"pandas", None)
     if raw != model:
         return f"footer key-values {sorted(raw.items())[:4]} != model {sorted(model.items())[:4]}" \
@@ -153,6 +155,7 @@ def c16_run(fp, spec, root):
     if r:
         return "after the initial write: " + r, deltas
     prev_len = base["flen"]
+    pandas_expected = "base"
     for i, upd in enumerate(updates):
         before = others()
         try:
@@ -160,13 +163,17 @@ def c16_run(fp, spec, root):
         except Exception as e:
             return f"update {i} {spec['updates'][i]}: raised {type(e).__name__}: {str(e)[:200]}", deltas
         c16_model_update(model, upd)
+        if any(c16_b(k) == b"pandas" for k in upd):
+            # the update names the library's own entry: it is an ordinary key then (removed / replaced as asked)
+            pandas_expected = model.get(b"pandas")
+        model.pop(b"pandas", None)
         try:
             obs = c16_observe(fp, target, openpath, readpath)
         except Exception as e:
             return f"after update {i} {spec['updates'][i]}: {type(e).__name__}: {str(e)[:200]}", deltas
         deltas.append(obs["flen"] - prev_len)
         prev_len = obs["flen"]
-        r = c16_check(obs, model, base, before, others())
+        r = c16_check(obs, model, base, before, others(), pandas_expected)
         if r:
             return f"after update {i} {spec['updates'][i]}: {r}", deltas
     return None, deltas
@@ -199,6 +206,10 @@ SCRIPTS = {
     "remove-all-then-add": [[("s:k", None), ("s:other", None), ("s:big", None), ("s:raw", None), ("s:cl\u00e9", None),
                              ("s:", None)] + [("s:k%d" % i, None) for i in range(12)],
                             [("s:z", "s:z")], [("s:z", "s:z")]],
+    # the LAST key goes too (the pandas entry the writer adds itself): an empty key-value list is a legal footer
+    "remove-every-key": [[("s:k", None), ("s:other", None), ("s:big", None), ("s:raw", None), ("s:cl\u00e9", None),
+                          ("s:", None)] + [("s:k%d" % i, None) for i in range(12)], [("s:pandas", None)], [("s:pandas", None)],
+                         [("s:back", "s:again")], [("s:back", None)]],
 }
 TARGETS = [("data", False), ("_metadata", False), ("_metadata", True), ("_common_metadata", True)]
 
